@@ -157,6 +157,21 @@ theorem usable_gstep (now : Nat) (cfg : Cfg) (c : SLink F) :
   rw [connected_of_core hc, schedulable_of_core hc,
     isTimedOut_of_core hc (by rw [timeout_gstep]) now]
 
+theorem usable_of_core {a b : SLink F} (h : core a = core b) (ht : a.connTimeoutMs = b.connTimeoutMs)
+    (now : Nat) : usable now a = usable now b := by
+  unfold usable
+  rw [connected_of_core h, schedulable_of_core h, isTimedOut_of_core h ht now]
+
+/-- A usable link after the pass comes from a link that is usable w.r.t. the configured timeout. -/
+theorem gate_usable_post (ls : List (SLink F)) (now : Nat) (cfg : Cfg)
+    (h : ∃ c' ∈ applyStallGate ls now cfg, usable now c' = true) :
+    ∃ c ∈ ls, usable now { c with connTimeoutMs := cfg.connTimeoutMs } = true := by
+  obtain ⟨c', hc', hu⟩ := h
+  obtain ⟨c, hc, hcore, ht⟩ := gate_mem_core hc'
+  refine ⟨c, hc, ?_⟩
+  rw [← hu]
+  exact (usable_of_core (a := c') (b := { c with connTimeoutMs := cfg.connTimeoutMs }) hcore ht now).symm
+
 /-- If some link is usable w.r.t. the configured timeout, then after the pass some link is usable
 and not stall-gated. -/
 theorem gate_spares_usable (ls : List (SLink F)) (now : Nat) (cfg : Cfg)
